@@ -441,6 +441,16 @@ func (bwu *BaseWorkUnit) MonitorLocalStatus() {
 	if err != nil {
 		fi = nil
 	}
+	// The record may have been rewritten (by the command runner, for instance) after it was last
+	// loaded and before the watcher and the reference time stamp above were in place; such a write
+	// produces neither an event nor a newer time stamp later on, so look at the record once now.
+	if fi != nil {
+		if lerr := bwu.Load(); lerr != nil {
+			bwu.w.nc.GetLogger().Error("Error reading %s: %s", statusFile, lerr)
+		} else if IsComplete(bwu.Status().State) {
+			return
+		}
+	}
 
 loop:
 	for {
